@@ -1,6 +1,6 @@
 /-
 Model of the built-in functions' `get_result_kinds` (dagrt/function_registry.py,
-with `check = False`) and of `dagrt.utils.resolve_args`.  Import-free.
+both `check` modes) and of `dagrt.utils.resolve_args`.  Import-free.
 -/
 import Dagrt.Model.Kinds
 namespace Dagrt.Kinds
@@ -37,49 +37,100 @@ def realAnd (a b : Option Kind) : Except KErr Bool := do
   let ra ← realOf a
   bif ra then realOf b else .ok false
 
-def builtin (f : Name) : Option (List (Option Kind) → List (Name × Option Kind) → Except KErr (List Kind)) :=
-  if f = "<builtin>norm_1" ∨ f = "<builtin>norm_2" ∨ f = "<builtin>norm_inf" ∨ f = "<builtin>len" then
-    some fun p k => do let _ ← resolveArgs ["x"] p k; .ok [.scalar true]
+def isScalarK : Option Kind → Bool
+  | some (.scalar _) => true
+  | _ => false
+
+def isArrayK : Option Kind → Bool
+  | some (.array _) => true
+  | _ => false
+
+/-- `isinstance(k, (NoneType, Array, UserType))` -/
+def vecOrNone : Option Kind → Bool
+  | none => true
+  | some (.array _) => true
+  | some (.user _) => true
+  | _ => false
+
+/-- `isinstance(k, (NoneType, Scalar, Array, UserType))` -/
+def dataOrNone : Option Kind → Bool
+  | none => true
+  | some (.scalar _) => true
+  | some (.array _) => true
+  | some (.user _) => true
+  | _ => false
+
+/-- a failed argument check of `get_result_kinds(..., check=True)` -/
+def need (chk : Bool) (ok : Bool) : Except KErr Unit :=
+  if chk && !ok then .error .typeError else .ok ()
+
+def builtin (f : Name) : Option (Bool → List (Option Kind) → List (Name × Option Kind) → Except KErr (List Kind)) :=
+  if f = "<builtin>norm_1" ∨ f = "<builtin>norm_2" ∨ f = "<builtin>norm_inf" then
+    some fun chk p k => do
+      match ← resolveArgs ["x"] p k with
+      | [x] => do need chk (vecOrNone x); .ok [.scalar true]
+      | _ => .error .typeError
+  else if f = "<builtin>len" then
+    some fun chk p k => do
+      match ← resolveArgs ["x"] p k with
+      | [x] => do need chk (dataOrNone x); .ok [.scalar true]
+      | _ => .error .typeError
   else if f = "<builtin>elementwise_abs" then
-    some fun p k => do
+    some fun _ p k => do
       match ← resolveArgs ["x"] p k with
       | [some (.user i)] => .ok [.user i]
       | [some (.array _)] => .ok [.array true]
       | [some (.scalar _)] => .ok [.scalar true]
       | _ => .error .typeError
   else if f = "<builtin>dot_product" then
-    some fun p k => do let _ ← resolveArgs ["x", "y"] p k; .ok [.scalar false]
+    some fun chk p k => do
+      match ← resolveArgs ["x", "y"] p k with
+      | [x, y] => do need chk (vecOrNone x); need chk (vecOrNone y); .ok [.scalar false]
+      | _ => .error .typeError
   else if f = "<builtin>isnan" then
-    some fun p k => do let _ ← resolveArgs ["x"] p k; .ok [.boolean]
+    some fun chk p k => do
+      match ← resolveArgs ["x"] p k with
+      | [x] => do need chk (dataOrNone x); .ok [.boolean]
+      | _ => .error .typeError
   else if f = "<builtin>array" then
-    some fun p k => do let _ ← resolveArgs ["n"] p k; .ok [.array true]
+    some fun chk p k => do
+      match ← resolveArgs ["n"] p k with
+      | [n] => do need chk (isScalarK n); .ok [.array true]
+      | _ => .error .typeError
   else if f = "<builtin>matmul" ∨ f = "<builtin>linear_solve" then
-    some fun p k => do
+    some fun chk p k => do
       match ← resolveArgs ["a", "b", "a_cols", "b_cols"] p k with
-      | [a, b, _, _] =>
+      | [a, b, ac, bc] =>
         match a, b with
         | none, _ => .error .unable
         | _, none => .error .unable
-        | _, _ => do let r ← realAnd a b; .ok [.array r]
+        | _, _ => do
+          need chk (isArrayK a); need chk (isArrayK b); need chk (isScalarK ac); need chk (isScalarK bc)
+          let r ← realAnd a b; .ok [.array r]
       | _ => .error .typeError
   else if f = "<builtin>transpose" then
-    some fun p k => do
+    some fun chk p k => do
       match ← resolveArgs ["a", "a_cols"] p k with
-      | [a, _] =>
+      | [a, ac] =>
         match a with
         | none => .error .unable
-        | _ => do let r ← realOf a; .ok [.array r]
+        | _ => do need chk (isArrayK a); need chk (isScalarK ac); let r ← realOf a; .ok [.array r]
       | _ => .error .typeError
   else if f = "<builtin>svd" then
-    some fun p k => do
+    some fun chk p k => do
       match ← resolveArgs ["a", "a_cols"] p k with
-      | [a, _] =>
+      | [a, ac] =>
         match a with
         | none => .error .unable
-        | _ => do let r ← realOf a; .ok [.array r, .array r, .array r]
+        | _ => do need chk (isArrayK a); need chk (isScalarK ac); let r ← realOf a; .ok [.array r, .array r, .array r]
       | _ => .error .typeError
   else if f = "<builtin>print" then
-    some fun p k => do let _ ← resolveArgs ["arg"] p k; .ok []
+    some fun chk p k => do
+      match ← resolveArgs ["arg"] p k with
+      | [a] => do
+        need chk (match a with | some .integer => true | some (.scalar _) => true | some (.array _) => true | _ => false)
+        .ok []
+      | _ => .error .typeError
   else none
 
 /-- registry = built-ins + user functions with fixed result kinds (`FixedResultKindsFunction`) -/
@@ -87,7 +138,7 @@ def mkRegistry (fixed : List (Name × List Kind)) : Registry := fun f =>
   match builtin f with
   | some fn => some fn
   | none => match fixed.lookup f with
-    | some ks => some fun _ _ => .ok ks
+    | some ks => some fun _ _ _ => .ok ks
     | none => none
 
 end Dagrt.Kinds
